@@ -359,6 +359,8 @@ def check(rep, F, tier, replay=None):
     size_fresh_rule(rep, F)
     from ruleutil import sib_qty_rule
     sib_qty_rule(rep, F)
+    from ruleutil import recalc_all_rule
+    recalc_all_rule(rep, F)
     return rep.finish(
         EXPLANATION,
         ["min_ada_for_output's numeric bound (fixed point over the coin width) is not decided statically", "collateral return gates are C19's rules"],
